@@ -44,7 +44,7 @@ fn classify(e: &LoaderError) -> String {
         LoaderError::LockFileTimeout(_) => "timeout".into(),
         LoaderError::Compilation(..) => "compile".into(),
         LoaderError::Library(_) | LoaderError::Symbol(_) => {
-            let m = format!("{e}");
+            let m = format!("{e:?}"); // Display of libloading errors omits the dlerror text
             if m.contains("No such file") {
                 "missing".into()
             } else {
@@ -544,7 +544,7 @@ struct Free {
 
 fn free_spec(f: &Free) -> String {
     format!(
-        "free {} lib={} lock={} temp={} broken={} scanner={} procs={} threads={} kill={} victim={} later={}",
+        "free {} lib={} lock={} temp={} broken={} scanner={} procs={} threads={} kill={} victim={} dolater={}",
         f.id,
         f.setup.lib,
         f.setup.lock as u8,
@@ -573,7 +573,7 @@ fn parse_free(line: &str) -> Option<Free> {
         threads: m.get("threads")?.parse().ok()?,
         kill_after_ms: m.get("kill").and_then(|s| s.parse().ok()),
         victim: m.get("victim")?.parse().ok()?,
-        later: m.get("later")? == "1",
+        later: m.get("dolater")? == "1",
     })
 }
 
@@ -665,12 +665,17 @@ fn main() {
     let root = PathBuf::from(args.get(2).expect("workdir"));
     fs::create_dir_all(&root).unwrap();
     let mut sched_file = None;
+    let mut sched_recheck_file = None;
     let mut spec_file = None;
     let mut i = 3;
     while i < args.len() {
         match args[i].as_str() {
             "--sched" => {
                 sched_file = Some(args[i + 1].clone());
+                i += 2;
+            }
+            "--sched-recheck" => {
+                sched_recheck_file = Some(args[i + 1].clone());
                 i += 2;
             }
             "--spec" => {
@@ -685,6 +690,18 @@ fn main() {
     let hook = !force_nohook && detect_hook(&root, &src);
     let thorough = tier_is_thorough();
     let mut rng = Rng::new(seed_from_env());
+    // Which protocol does the code implement?  With a leftover lock and an immediate timeout the
+    // unchanged tree gives up (next event: exit), the re-checking repair goes back to `check`.
+    let mut variant = "unknown";
+    if hook {
+        let disc = parse_sched("sched disc lib=stale lock=1 temp=0 n=1 broken=0 K=0 steps=0:check,0:lock,0:poll").unwrap();
+        let r = run_controlled(&root.join("disc"), &disc, &src);
+        let _ = fs::remove_dir_all(root.join("disc"));
+        variant = if r.contains("points=lock;poll;check ") { "recheck" } else { "orig" };
+        if variant == "recheck" {
+            sched_file = sched_recheck_file.clone();
+        }
+    }
 
     // ---- work list
     let mut scheds: Vec<Sched> = Vec::new();
@@ -809,7 +826,7 @@ fn main() {
     let mut res = results.lock().unwrap().clone();
     res.sort();
     let mut out = std::io::BufWriter::new(fs::File::create(&out_path).unwrap());
-    writeln!(out, "mode hook={} skipped_sched={}", hook as u8, skipped_sched).unwrap();
+    writeln!(out, "mode hook={} skipped_sched={} variant={}", hook as u8, skipped_sched, variant).unwrap();
     for (_, l) in &res {
         writeln!(out, "{l}").unwrap();
     }
